@@ -42,8 +42,11 @@ pub fn families(prop: &str, tier: Tier) -> Vec<Cfg> {
             c.io = IoMenu::partial();
             c.io.all_partials_upto = 6;
             c.cancel = true;
-            c.max_ops = if q { 5 } else { 6 };
-            c.max_conns = 1;
+            c.max_ops = if q { 5 } else { 7 };
+            c.max_conns = if q { 1 } else { 2 };
+            if !q {
+                c.ops.push(OpK::DropConn);
+            }
             c.max_reqs = 2;
             c.dev = 2;
             let mut v = vec![a, b, c];
@@ -263,6 +266,8 @@ pub fn families(prop: &str, tier: Tier) -> Vec<Cfg> {
             b.ops = vec![OpK::Pub2, OpK::Pub1, OpK::Poll, OpK::DropConn];
             b.io = IoMenu::partial();
             b.cancel = true;
+            // inbound QoS 2 exchanges whose identifiers collide with the outbound ones
+            b.broker.script = vec![inpub(2, 1), inpub(2, 2)];
             b.max_ops = if q { 6 } else { 8 };
             b.max_conns = 2;
             b.max_reqs = 3;
@@ -315,7 +320,8 @@ pub fn families(prop: &str, tier: Tier) -> Vec<Cfg> {
             let mut a = Cfg::base("C04-inbound-qos012-interleaved");
             a.must_reach = vec!["inbound publish delivered with properties"];
             a.props = vec!["C04"];
-            a.ops = vec![OpK::Poll, OpK::Pub1, OpK::Drive, OpK::DropConn];
+            // (outbound QoS 1 / QoS 2 identifiers 1, 2 ... collide with the inbound ones)
+            a.ops = vec![OpK::Poll, OpK::Pub1, OpK::Pub2, OpK::Drive, OpK::DropConn];
             a.io = IoMenu::partial();
             a.io.read_err = true;
             a.cancel = true;
@@ -325,7 +331,7 @@ pub fn families(prop: &str, tier: Tier) -> Vec<Cfg> {
             a.broker.may_lose_session = true;
             a.max_ops = if q { 7 } else { 9 };
             a.max_conns = if q { 2 } else { 3 };
-            a.max_reqs = 1;
+            a.max_reqs = if q { 1 } else { 2 };
             a.dev = if q { 1 } else { 2 };
             // transmit arena full: acks must still go out
             let mut b = Cfg::base("C04-arena-full");
@@ -467,11 +473,25 @@ pub fn families(prop: &str, tier: Tier) -> Vec<Cfg> {
             c.io = IoMenu::benign();
             c.broker.receive_max = vec![Some(2), Some(1), Some(3)];
             c.pub_retain = vec![false, true];
-            c.max_ops = if q { 7 } else { 9 };
-            c.max_conns = 2;
+            c.max_ops = if q { 7 } else { 10 };
+            c.max_conns = if q { 2 } else { 3 };
             c.max_reqs = if q { 3 } else { 4 };
             c.dev = 0;
             v.push(c);
+            // refusals for different reasons one after the other (window full, packet too large), then an
+            // accepted publish
+            let mut r = Cfg::base("C06-window-and-size-refusals");
+            r.props = vec!["C06"];
+            r.ops = vec![OpK::Pub1, OpK::Pub2, OpK::Pub0, OpK::Poll, OpK::DropConn];
+            r.io = IoMenu::benign();
+            r.broker.receive_max = vec![Some(1), Some(2)];
+            r.broker.max_packet = vec![Some(24), None];
+            r.payload_sizes = vec![2, 40];
+            r.max_ops = if q { 7 } else { 9 };
+            r.max_conns = 2;
+            r.max_reqs = if q { 4 } else { 5 };
+            r.dev = 0;
+            v.push(r);
             // local limit: Receive Maximum above / at the local window of 8
             let mut b = Cfg::base("C06-receive-maximum-9-and-65535");
             b.must_reach = vec!["eight publishes unresolved at the broker", "publish refused because the send window is full"];
